@@ -79,18 +79,6 @@ func (h *c14Handler) OnAdd(t string, m model.Model)       { h.rec("add", t, nil,
 func (h *c14Handler) OnUpdate(t string, o, n model.Model) { h.rec("update", t, o, n) }
 func (h *c14Handler) OnDelete(t string, m model.Model)    { h.rec("delete", t, m, nil) }
 
-// one notification: table -> uuid -> change
-type c14Change struct {
-	Table, UUID string
-	Kind        string // insert, modify, delete
-	Row         rm.Row // insert: full row; modify: new values of some columns
-}
-
-type c14Note struct {
-	Name    string
-	Changes []c14Change
-}
-
 var c14U = []string{uu("e", 1), uu("e", 2), uu("e", 3)}
 
 func c14Alphabet(level int) []c14Note {
@@ -162,86 +150,6 @@ func c14RefApply(ref *rm.Schema, st map[string]map[string]rm.Row, n c14Note) (ok
 }
 
 // wire form (update2) of a notification given the current reference state
-func c14Wire(ref *rm.Schema, st map[string]map[string]rm.Row, n c14Note) ovsdb.TableUpdates2 {
-	tu := ovsdb.TableUpdates2{}
-	for _, c := range n.Changes {
-		if tu[c.Table] == nil {
-			tu[c.Table] = ovsdb.TableUpdate2{}
-		}
-		t := ref.Tables[c.Table]
-		ru := &ovsdb.RowUpdate2{}
-		switch c.Kind {
-		case "insert":
-			r := sys.ToOvsRow(t, c.Row)
-			ru.Insert = &r
-		case "delete":
-			ru.Delete = &ovsdb.Row{}
-		case "modify-same":
-			// a modify whose difference is empty for the current row
-			r := ovsdb.Row{}
-			ru.Modify = &r
-		case "modify":
-			diff := ovsdb.Row{}
-			cur := st[c.Table][c.UUID]
-			for cn, v := range c.Row {
-				col := t.Cols[cn]
-				var old rm.Value
-				if cur != nil {
-					old = cur[cn]
-				} else {
-					old = col.Default()
-				}
-				if old.Equal(v) {
-					continue
-				}
-				switch {
-				case col.IsMap:
-					d := rm.MapOf()
-					for k, x := range old.Map {
-						if y, ok := v.Map[k]; !ok {
-							d.Map[k] = x
-						} else if y != x {
-							d.Map[k] = y
-						}
-					}
-					for k, y := range v.Map {
-						if _, ok := old.Map[k]; !ok {
-							d.Map[k] = y
-						}
-					}
-					diff[cn] = sys.ToOvs(col, d)
-				case col.Max == 1:
-					diff[cn] = sys.ToOvs(col, v)
-				default:
-					var el []rm.Atom
-					for _, a := range old.Set {
-						if !v.Has(a) {
-							el = append(el, a)
-						}
-					}
-					for _, a := range v.Set {
-						if !old.Has(a) {
-							el = append(el, a)
-						}
-					}
-					s := make([]interface{}, 0, len(el))
-					for _, a := range el {
-						s = append(s, sys.ToOvs(&rm.Col{KeyT: col.KeyT, Min: 1, Max: 1}, rm.SetOf(a)))
-					}
-					diff[cn] = ovsdb.OvsSet{GoSet: s}
-				}
-			}
-			ru.Modify = &diff
-		}
-		var wire ovsdb.RowUpdate2
-		if err := jsonRoundTrip(ru, &wire); err != nil {
-			panic(err)
-		}
-		tu[c.Table][c.UUID] = &wire
-	}
-	return tu
-}
-
 // c14Oracle checks the recorded logs against the final cache contents.
 func c14Oracle(dbs *schemas.DB, tc *cache.TableCache, hs []*c14Handler, expectedEvents int) (string, string) {
 	for _, h := range hs {
